@@ -367,6 +367,12 @@ func runC13(c *vx.Ctx) {
 	if c.Thorough() {
 		k = 4
 	}
+	if !c.Wants("rewards") {
+		if c.Wants("contracts") {
+			c13Contracts(c)
+		}
+		return
+	}
 	p := c.Part("rewards")
 	p.Bound("assigned_blocks", k)
 	p.Bound("pattern", c13Pattern)
@@ -419,6 +425,9 @@ func runC13(c *vx.Ctx) {
 	}
 	if c.Shard == 0 {
 		p.States = idx
+	}
+	if c.Wants("contracts") {
+		c13Contracts(c)
 	}
 }
 
